@@ -48,7 +48,7 @@ func runC07(c *Ctx) {
 	// --- keygen
 	if f := c.fn("pkg/ed25519", "NewKeyFromSeed"); f != nil {
 		b := ana.NewBuilder(c.P, f.Function)
-		helper, hb := followOutBuf(c, "C07.keygen-flow", f.Function, b, "obj(alloc<[64]byte>, call<*>(slice(self, 0, 64), p0))", "slice($O, 0, 64)")
+		helper, hb := followOutBuf(c, "C07.keygen-flow", f.Function, b, "obj(alloc<[64]byte>, call<*>(slice(self, 0, 64), p0))", "slice($O, 0, alt(none, 64))")
 		if helper != nil {
 			c.R.Fn(ana.ShortFunc(helper))
 			// exits of helper: panics only under len(seed)!=32 or clamping error; single return
@@ -77,7 +77,7 @@ func runC07(c *Ctx) {
 	var signK *ana.Term
 	if f := c.fn("pkg/ed25519", "Sign"); f != nil {
 		b := ana.NewBuilder(c.P, f.Function)
-		helper, hb := followOutBuf(c, "C07.sign-flow", f.Function, b, "obj(alloc<[64]byte>, call<*>(slice(self, 0, 64), p0, p1))", "slice($O, 0, 64)")
+		helper, hb := followOutBuf(c, "C07.sign-flow", f.Function, b, "obj(alloc<[64]byte>, call<*>(slice(self, 0, 64), p0, p1))", "slice($O, 0, alt(none, 64))")
 		if helper != nil {
 			c.R.Fn(ana.ShortFunc(helper))
 			seedPat := strings.Replace(patSHA512Seed, "$seed", "slice(p1, 0, 32)", 1)
